@@ -28,6 +28,19 @@ Proof.
   apply burndown_roundtrip; assumption.
 Qed.
 
+(* the same with the two alignment conditions spelled out *)
+Theorem burndown_wire_explicit : forall (B : Type) (marshal : burndown_msg -> B) (unmarshal : B -> option burndown_msg),
+  (forall m, unmarshal (marshal m) = Some m) ->
+  forall r, shape_burndown r = true ->
+  names_eqb (map fst (bd_files r)) (map fst (bd_ownership r)) = true ->
+  (length (bd_names r) =? length (bd_people r))%nat = true ->
+  in_range_burndown r = true ->
+  roundtrip_with marshal unmarshal encode_burndown decode_burndown r = Ok (normalise_burndown r).
+Proof.
+  intros B marshal unmarshal wire r Hs Hk Hl Hr. apply burndown_wire; [exact wire | | exact Hr].
+  unfold rectangular_burndown, aligned_burndown. rewrite Hs, Hk, Hl. reflexivity.
+Qed.
+
 Theorem burndown_wire_image : forall (B : Type) (marshal : burndown_msg -> B) (unmarshal : B -> option burndown_msg),
   (forall m, unmarshal (marshal m) = Some m) ->
   forall r, shape_burndown r = true -> in_range_burndown r = true ->
@@ -79,9 +92,9 @@ Definition ex_burndown_loaded_dict : burndown_result :=
      bd_names := [n_a; n_unmatched];
      bd_tick_size := 86400000000000; bd_sampling := 30; bd_granularity := 30 |}.
 
-(* Finalize on a history with several heads: file "b" has a history but exists on another head only,
-   so it has no ownership table *)
-Definition ex_burndown_other_head : burndown_result :=
+(* a hand-made result in which file "b" has a history but no ownership table (until the repair 909b314
+   BurndownAnalysis.Finalize made such results for a file that exists on another head only) *)
+Definition ex_burndown_no_ownership : burndown_result :=
   {| bd_global := [[2]]; bd_files := [(n_a, [[1]]); (n_b, [[1]])]; bd_ownership := [(n_a, [(0, 1)])];
      bd_people := []; bd_matrix := None; bd_names := [];
      bd_tick_size := 86400000000000; bd_sampling := 30; bd_granularity := 30 |}.
